@@ -27,7 +27,7 @@ func (p *Program) verifyFunc(c *Contract) *FuncResult {
 	res := &FuncResult{Name: shortFuncName(fn), Contract: c, Exec: ex}
 	res.Theories = c.Theory
 	if len(res.Theories) == 0 {
-		res.Theories = []string{"coins", "keys", "state"}
+		res.Theories = p.defaultTheories()
 	}
 	st := &St{cells: map[*Cell]Val{}, glob: map[string]Term{}}
 	for _, g := range stateComponents {
@@ -274,7 +274,7 @@ func (p *Program) verifyLemma(c *Contract) *FuncResult {
 	res := &FuncResult{Name: "lemma." + c.Short, Contract: c, Exec: ex}
 	res.Theories = c.Theory
 	if len(res.Theories) == 0 {
-		res.Theories = []string{"coins", "keys", "state"}
+		res.Theories = p.defaultTheories()
 	}
 	env := &Env{Vars: map[string]Term{}, P: p}
 	for i, n := range c.Params {
@@ -410,4 +410,16 @@ func (p *Program) assembleQuery(res *FuncResult, o *Obl, forModel bool) string {
 		fmt.Fprintf(&sb, "(get-value (%s))\n", strings.Join(vs, " "))
 	}
 	return sb.String()
+}
+
+// defaultTheories: every theory except the byte-level one (layer K), in file order.
+func (p *Program) defaultTheories() []string {
+	var out []string
+	for _, th := range p.theoryOrder {
+		if th == "core" || th == "bytes" {
+			continue
+		}
+		out = append(out, th)
+	}
+	return out
 }
